@@ -39,7 +39,7 @@ def run(ctx):
                                         ("NGdc", "IGdc"), ("NAdvance", "IAdvance"), ("NLoopRun", "ILoopRun"), ("NRunEnd", "IRunEnd"),
                                         ("NAdvanceEnd", "IAdvanceEnd")])
     r = ctx.mc("ClockImplMC", "ClockImplMC.sim.cfg", workers=2, coverage=False, label="simulate",
-               args=["-simulate", "num=%d" % ctx.pick(300, 60000), "-depth", "70", "-seed", str(ctx.seed)])
+               args=["-simulate", "num=%d" % ctx.pick(250, 60000), "-depth", "70", "-seed", str(ctx.seed)])
     if not r.ok:
         raise MachineryError("ClockImpl deep simulation: refinement of TimersAbs fails: %s\n%s" % (r.error, "".join(r.cex[-3:])[:3000]))
     A.run_flavour(ctx, "clock", "task.Clock")
